@@ -208,8 +208,13 @@ func (w *World) importedPkg(pkgPath, name string) *types.Package {
 
 func (w *World) specFunc(pkgPath, name string) *SpecFunc {
 	if i := strings.Index(name, "."); i >= 0 {
-		// qualified by import name: search by suffix of package path
+		// qualified by import name (alias aware), else by suffix of the package path
 		q, n := name[:i], name[i+1:]
+		if imp := w.importedPkg(pkgPath, q); imp != nil {
+			if sf, ok := w.SpecFuncs[imp.Path()+"#"+n]; ok {
+				return sf
+			}
+		}
 		for k, sf := range w.SpecFuncs {
 			if strings.HasSuffix(k, "#"+n) && (strings.HasSuffix(sf.Pkg, "/"+q) || sf.Pkg == q) {
 				return sf
